@@ -16,7 +16,7 @@ import sys
 
 V = os.path.dirname(os.path.dirname(os.path.abspath(__file__)))
 REPO = "/repo"
-SCR = "/tmp/seedchk"
+SCR = os.environ.get("SEED_SCR", "/tmp/seedchk")
 PY = "/venv/bin/python"
 
 
